@@ -412,6 +412,9 @@ func (m *Machine) panicText(x *goPanic) string {
 			if t, ok := v.v.(*Term); ok {
 				return m.in.Show(t)
 			}
+			if et := m.errorText(v); et != nil {
+				return typeString(v.t) + ": " + m.in.Show(et)
+			}
 			return typeString(v.t)
 		}
 	}
